@@ -147,7 +147,7 @@ def shard(mon, tier, rng, shard_no, nshards):
         else:
             check_cone(mon, f"scratch{m + 1}x{m}", order, rng, f"random{m}d")
     for j in range(10 if tier == "quick" else 600):
-        m = int(rng.choice([2, 3, 4]))
+        m = int(rng.choice([2, 3, 4, 4, 5, 6]))
         K = m + int(rng.integers(0, 5))
         W = G.random_cone(rng, m, K, min_interior=float(rng.choice([0.05, 0.2, 0.5])))
         if rng.random() < 0.2 and K > m:  # redundant facet: a positive combination of two others
